@@ -15,7 +15,6 @@ import (
 	"verif/engine/sx"
 )
 
-const VerifDir = "/verif"
 
 // Report aggregates what a check run established.
 type Report struct {
